@@ -56,14 +56,31 @@ static std::unordered_map<long long, Ctx*> CACHE;
 static Ctx* context(const Value& c)
 {
   long long gid = (long long)c.at("gid").d();
+  const Value& gj = c.at("g");
   auto it = CACHE.find(gid);
-  if (it != CACHE.end()) return it->second;
+  if (it != CACHE.end())
+  {
+    // the identifier is a hash of the grid: make sure that it is the same grid
+    Ctx* y = it->second;
+    bool ok = y->nd == gj.at("nd").i();
+    if (ok)
+    {
+      VectorInt nx = vi(gj.at("nx"));
+      VectorDouble dx = vd(gj.at("dx")), x0 = vd(gj.at("x0")), ang = vd(gj.at("ang"));
+      for (int k = 0; ok && k < y->nd; k++)
+        ok = nx[k] == y->nx[k] && dx[k] == y->dx[k] && x0[k] == y->x0[k] && ang[k] == y->ang[k];
+    }
+    if (ok) return y;
+    delete y->db;
+    delete y;
+    CACHE.erase(it);
+  }
   if (CACHE.size() > 30000)
   {
     for (auto& kv : CACHE) { delete kv.second->db; delete kv.second; }
     CACHE.clear();
   }
-  const Value& g = c.at("g");
+  const Value& g = gj;
   Ctx* x = new Ctx;
   x->nd = g.at("nd").i();
   x->nx = vi(g.at("nx"));
